@@ -97,9 +97,49 @@ KNOWN_MECHANISMS = {
 _HITS = {}
 
 
-def _emit(ctx, verdicts, **wit):
+KAK_MECH = "C15:bidiagonalize_real_matrix_pair:rank-cut-splits-degenerate-singular-cluster"
+KNOWN_MECHANISMS.add(KAK_MECH)
+SQISW_MECH = "C15:two_qubit_matrix_to_sqrt_iswap_operations:wrong-on-the-x=pi/4-face-when-atol<1e-9(canonicalisation-windows-differ)"
+KNOWN_MECHANISMS.add(SQISW_MECH)
+FSIM_MECH = "C15:decompose_two_qubit_interaction_into_four_fsim_gates:wrong-on-the-x=pi/4-face(z-sign-of-canonical-frames-differs)"
+KNOWN_MECHANISMS.add(FSIM_MECH)
+
+
+def _straddles(real_mat, atol):
+    """Two numerically equal singular values of mat1 on either side of the rank cut `<= atol`."""
+    s = np.linalg.svd(np.asarray(real_mat, dtype=float), compute_uv=False)
+    return any(s[i] > atol >= s[i + 1] and s[i] - s[i + 1] < 1e-9 for i in range(len(s) - 1))
+
+
+def _kak_explains(u, atol=1e-8, rtol=1e-5):
+    """Explained-by test for the known KAK failure: bidiagonalize_real_matrix_pair_with_symmetric_products cuts the rank of
+    Re(Mag^H U Mag) at `atol`; when that cut falls inside a cluster of numerically equal singular values the two halves are
+    diagonalised independently and the result is wrong.  True only if (a) such a straddling cluster exists, (b) kak_decomposition
+    itself fails to rebuild U at this tolerance and (c) it succeeds once the cut is moved away from the cluster."""
+    import cirq
+
+    u = np.asarray(u, dtype=complex)
+    if u.shape != (4, 4) or not _straddles(np.real(W.MAGIC_H @ u @ W.MAGIC), atol):
+        return False
+
+    def bad(a):
+        k = cirq.kak_decomposition(u, atol=a, rtol=rtol, check_preconditions=False)
+        return not all(ok for _, _, ok, _ in P.post_kak_decomposition(u, k))
+
+    return bad(atol) and not bad(atol * 100)
+
+
+def _emit(ctx, verdicts, _kak=None, **wit):
+    """_kak = (u, atol[, rtol]) names the KAK call the routine makes internally, for the explained-by classification."""
     ok = True
+    explained = None
     for mon, mech, good, msg in verdicts:
+        if not good and mech not in KNOWN_MECHANISMS and _kak is not None:
+            if explained is None:
+                explained = _kak_explains(*_kak)
+            if explained:
+                msg = "[%s] %s" % (mech, msg)
+                mech = KAK_MECH
         if not good and mech in KNOWN_MECHANISMS:
             _HITS[mech] = _HITS.get(mech, 0) + 1
             if _HITS[mech] > 3 and not ctx.replaying:
@@ -158,21 +198,23 @@ def sec_kak(ctx, rng, case):
     wit = dict(u=u, label=info["label"], delta=info["delta"])
     flag = bool(rng.integers(2))
     k = cirq.kak_decomposition(u, check_preconditions=flag)
-    _emit(ctx, P.post_kak_decomposition(u, k), check_preconditions=flag, **wit)
+    kk_ = (u, 1e-8)
+    _emit(ctx, P.post_kak_decomposition(u, k), _kak=kk_, check_preconditions=flag, **wit)
     ku = cirq.unitary(k)
-    ctx.check(L.allclose(ku, u, TOL), "KakDecomposition:unitary", "C15:KakDecomposition:unitary-differs",
-              lambda: "cirq.unitary(KakDecomposition) differs from the decomposed matrix by %.3g" % L.maxdiff(ku, u), **wit)
+    _emit(ctx, [("KakDecomposition:unitary", "C15:KakDecomposition:unitary-differs", L.allclose(ku, u, TOL),
+                 "cirq.unitary(KakDecomposition) differs from the decomposed matrix by %.3g" % L.maxdiff(ku, u))], _kak=kk_, **wit)
     vec = cirq.kak_vector(u, check_preconditions=bool(rng.integers(2)))
     pv = P.post_kak_vector(u, vec)
     _emit(ctx, pv, **wit)
     if pv.inexact:
         ctx.event("kak_vector:z-sign-forced-outside-atol-band(>1e-6)")
-    ctx.check(P.same_kak_vector(vec, k.interaction_coefficients), "kak_vector==kak_decomposition", "C15:kak_vector:differs-from-decomposition",
-              "kak_vector %r vs decomposition coefficients %r" % (list(map(float, vec)), list(map(float, k.interaction_coefficients))), **wit)
+    _emit(ctx, [("kak_vector==kak_decomposition", "C15:kak_vector:differs-from-decomposition", P.same_kak_vector(vec, k.interaction_coefficients),
+                 "kak_vector %r vs decomposition coefficients %r" % (list(map(float, vec)), list(map(float, k.interaction_coefficients))))],
+          _kak=kk_, **wit)
     mine = W.weyl_coordinates(u)
-    ctx.check(P.same_kak_vector(mine, k.interaction_coefficients), "kak_decomposition:coefficients==reference",
-              "C15:kak_decomposition:coefficients-differ-from-reference",
-              "reference Weyl coordinates %r vs %r" % (mine, tuple(map(float, k.interaction_coefficients))), **wit)
+    _emit(ctx, [("kak_decomposition:coefficients==reference", "C15:kak_decomposition:coefficients-differ-from-reference",
+                 P.same_kak_vector(mine, k.interaction_coefficients),
+                 "reference Weyl coordinates %r vs %r" % (mine, tuple(map(float, k.interaction_coefficients))))], _kak=kk_, **wit)
     if case % 4 == 0:  # batched input, shape (2, 3, 4, 4)
         batch = np.array([[UW.gen_two_qubit(rng, int(rng.integers(10 ** 6)))[0] for _ in range(3)] for _ in range(2)])
         batch[1, 2] = u
@@ -204,7 +246,7 @@ def sec_kak(ctx, rng, case):
     kc = cirq.kak_canonicalize_vector(float(raw[0]), float(raw[1]), float(raw[2]), catol) if catol != 1e-9 or rng.random() < 0.5 \
         else cirq.kak_canonicalize_vector(float(raw[0]), float(raw[1]), float(raw[2]))
     _emit(ctx, P.post_kak_canonicalize_vector(raw[0], raw[1], raw[2], catol, kc), raw=raw, atol=catol)
-    ctx.check(P.same_kak_vector(W.canonicalize(*raw), kc.interaction_coefficients, tol=1e-7), "kak_canonicalize_vector:==reference",
+    ctx.check(P.same_kak_vector(W.canonicalize(*raw), kc.interaction_coefficients, tol=max(1e-7, 2.1 * catol)), "kak_canonicalize_vector:==reference",
               "C15:kak_canonicalize_vector:differs-from-reference",
               "reference %r vs %r" % (W.canonicalize(*raw), kc.interaction_coefficients), raw=raw)
     # so4_to_magic_su2s / kron_factor_4x4_to_2x2s
@@ -248,7 +290,12 @@ def sec_linalg(ctx, rng, case):
     m1, m2, style, d = UW.gen_real_pair(rng, case)
     scale = max(1.0, float(np.abs(m1).max(initial=0)), float(np.abs(m2).max(initial=0)))
     left, right = cirq.bidiagonalize_real_matrix_pair_with_symmetric_products(m1, m2, check_preconditions=bool(rng.integers(2)))
-    _emit(ctx, P.post_bidiagonalize_pair(m1, m2, left, right, P.lin_tol(scale)), mat1=m1, mat2=m2, style=style)
+    vp = P.post_bidiagonalize_pair(m1, m2, left, right, P.lin_tol(scale))
+    if any(not ok for _, _, ok, _ in vp) and _straddles(m1, 1e-8):
+        l2, r2 = cirq.bidiagonalize_real_matrix_pair_with_symmetric_products(m1, m2, atol=1e-6, check_preconditions=False)
+        if all(ok for _, _, ok, _ in P.post_bidiagonalize_pair(m1, m2, l2, r2, P.lin_tol(scale))):
+            vp = [(mon, mech if ok else KAK_MECH, ok, msg) for mon, mech, ok, msg in vp]
+    _emit(ctx, vp, mat1=m1, mat2=m2, style=style)
     # bidiagonalize_unitary_with_special_orthogonals on 4x4 (the KAK use) and other sizes
     if case % 2 == 0:
         u, info = UW.gen_two_qubit(rng, case // 2)
@@ -264,7 +311,12 @@ def sec_linalg(ctx, rng, case):
             mat = (o * lam) @ o.T
         label = "normal-unitary"
     bl, bd, br = cirq.bidiagonalize_unitary_with_special_orthogonals(mat, check_preconditions=bool(rng.integers(2)))
-    _emit(ctx, P.post_bidiagonalize_unitary(mat, bl, bd, br, P.lin_tol(1.0)), mat=mat, label=label)
+    vu = P.post_bidiagonalize_unitary(mat, bl, bd, br, P.lin_tol(1.0))
+    if any(not ok for _, _, ok, _ in vu) and _straddles(np.real(mat), 1e-8):
+        l2, d2, r2 = cirq.bidiagonalize_unitary_with_special_orthogonals(mat, atol=1e-6, check_preconditions=False)
+        if all(ok for _, _, ok, _ in P.post_bidiagonalize_unitary(mat, l2, d2, r2, P.lin_tol(1.0))):
+            vu = [(mon, mech if ok else KAK_MECH, ok, "[%s] %s" % (mech, msg)) for mon, mech, ok, msg in vu]
+    _emit(ctx, vu, mat=mat, label=label)
     # diagonalize_real_symmetric_matrix
     dd = int(rng.integers(1, 6))
     o = UW.random_orthogonal(rng, dd)
@@ -368,7 +420,7 @@ def sec_cz(ctx, rng, case):
                     continue
                 raise
             v, d, n = P.post_cz_operations(q0, q1, u, ops, partial, atol, clean, coords)
-            _emit(ctx, v, allow_partial_czs=partial, clean_operations=clean, coords=coords, **wit)
+            _emit(ctx, v, _kak=(u, atol), allow_partial_czs=partial, clean_operations=clean, coords=coords, **wit)
             _note_recon(ctx, d, atol)
             counts[(partial, clean)] = n
     if (False, False) in counts and (False, True) in counts:
@@ -392,7 +444,8 @@ def sec_cz(ctx, rng, case):
     partial, clean = bool((case // 2) % 2), bool(case % 2)
     dg, dops = cirq.two_qubit_matrix_to_diagonal_and_cz_operations(q0, q1, u, partial, atol, clean)
     v, d, n = P.post_diagonal_and_cz(q0, q1, u, dg, dops, partial, atol, clean)
-    _emit(ctx, v, allow_partial_czs=partial, clean_operations=clean, **wit)
+    # the routine synthesises mat @ right_diag (= u @ D^dagger for the returned D) when it splits a diagonal off
+    _emit(ctx, v, _kak=(u @ np.asarray(dg).conj().T if np.shape(dg) == (4, 4) else u, atol), allow_partial_czs=partial, clean_operations=clean, **wit)
     ctx.event("diag+cz:%d-cz" % n)
     iops = cirq.two_qubit_matrix_to_cz_isometry(q0, q1, u, partial, atol, clean)
     v, d, n = P.post_cz_isometry(q0, q1, u, iops, partial, atol, clean)
@@ -401,7 +454,8 @@ def sec_cz(ctx, rng, case):
         # that is second order in the distance from the 2-CZ class), but the CZ synthesis sees |z| >= atol and spends 3 CZs
         v = [(mon, mech.replace("more-than-2-cz", "3-cz-because-num_cnots_required-underestimates-near-class-boundary"), ok, msg)
              for mon, mech, ok, msg in v]
-    _emit(ctx, v, allow_partial_czs=partial, clean_operations=clean, coords=coords, num_cnots_required=nc, **wit)
+    _emit(ctx, v, _kak=(u @ np.asarray(dg).conj().T if np.shape(dg) == (4, 4) else u, atol), allow_partial_czs=partial,
+          clean_operations=clean, coords=coords, num_cnots_required=nc, **wit)
     ctx.distinct(("cz", _fp(u), atol), nontrivial=_nontrivial(u))
     ctx.sample({"label": info["label"], "delta": info["delta"], "atol": atol, "coords": list(coords),
                 "cz_counts": {"%s/%s" % k: n_ for k, n_ in counts.items()}})
@@ -454,7 +508,18 @@ def sec_sqrt_iswap(ctx, rng, case):
         if expect == "either":
             ctx.event("sqrt-iswap-grey-band")
         v, d, n = P.post_sqrt_iswap(q0, q1, u, ops, required, inv, atol, clean, coords)
-        _emit(ctx, v, required=required, use_sqrt_iswap_inv=inv, clean_operations=clean, **wit)
+        if d > P.recon_tol(atol) and atol < 1e-9 and W.PI4 - coords[0] < 1.2e-9:
+            # explained-by: kak_decomposition canonicalises with a fixed 1e-9 window at x = pi/4 while the 3-gate branch
+            # canonicalises its sub-problems with the caller's atol; for atol < 1e-9 the two disagree about the sign of z on
+            # that face and the single-qubit corrections belong to different frames.  The same call with atol=1e-8 is correct.
+            kw2 = dict(kw, atol=1e-8)
+            try:
+                ops2 = cirq.two_qubit_matrix_to_sqrt_iswap_operations(q0, q1, u, **kw2)
+                if L.phase_diff(P.lower(ops2, [q0, q1]), u) <= TOL:
+                    v = [(mon, mech if ok else SQISW_MECH, ok, msg) for mon, mech, ok, msg in v]
+            except ValueError:
+                pass
+        _emit(ctx, v, _kak=(u, atol / 10, 0.0), required=required, use_sqrt_iswap_inv=inv, clean_operations=clean, **wit)
         _note_recon(ctx, d, atol)
         used[required] = n
     if case % 11 == 0:
@@ -517,7 +582,22 @@ def sec_other2q(ctx, rng, case):
             return
         use = qs if qs is not None else list(cirq.LineQubit.range(2))
         v, d = P.post_four_fsim(want, list(circ.all_operations()), use, fs)
-        _emit(ctx, v, fsim=repr(fs), **wit)
+        if d > TOL:
+            # explained-by: _fix_single_qubit_gates_around_kak_interaction assumes the KAK frames of the desired operation and of
+            # the constructed B-gate circuit belong to the same canonical vector; at x = pi/4 the canonical sign of z flips between
+            # the two (they sit on opposite sides of the chamber face), so the single-qubit corrections do not match.  The same
+            # local frames with x moved 1e-4 inside the chamber are synthesised correctly.
+            c = W.weyl_coordinates(want)
+            if c[0] > W.PI4 - 1e-6 and abs(c[2]) > 1e-7:
+                kd = cirq.kak_decomposition(want)
+                x, y, z = kd.interaction_coefficients
+                if all(ok for _, _, ok, _ in P.post_kak_decomposition(want, kd)):
+                    inside = W.kak_product(kd.global_phase, kd.single_qubit_operations_after[0], kd.single_qubit_operations_after[1],
+                                           (x - 1e-4, y, z), kd.single_qubit_operations_before[0], kd.single_qubit_operations_before[1])
+                    c2 = cirq.decompose_two_qubit_interaction_into_four_fsim_gates(inside, fsim_gate=fs, qubits=use)
+                    if all(ok for _, _, ok, _ in P.post_four_fsim(inside, list(c2.all_operations()), use, fs)[0]):
+                        v = [(mon, mech if ok else FSIM_MECH, ok, msg) for mon, mech, ok, msg in v]
+        _emit(ctx, v, _kak=(want, 1e-8), fsim=repr(fs), coords=W.weyl_coordinates(want), **wit)
         ctx.distinct(("four_fsim", _fp(want), repr(fs)), nontrivial=_nontrivial(want))
         ctx.sample({"routine": "four_fsim", "label": info["label"], "fsim": repr(fs)})
     elif sub == 1:  # CZ**t into two FSim
@@ -557,7 +637,7 @@ def sec_other2q(ctx, rng, case):
             ops = cirq.two_qubit_matrix_to_ion_operations(q0, q1, u, atol, clean) if rng.random() < 0.5 else \
                 cirq.two_qubit_matrix_to_ion_operations(q0, q1, u, atol=atol, clean_operations=clean)
             v, d = P.post_ion(q0, q1, u, ops, atol, clean)
-            _emit(ctx, v, atol=atol, clean_operations=clean, **wit)
+            _emit(ctx, v, _kak=(u, atol), atol=atol, clean_operations=clean, **wit)
             _note_recon(ctx, d, atol)
         ctx.distinct(("ion", _fp(u), atol), nontrivial=_nontrivial(u))
         ctx.sample({"routine": "ion", "label": info["label"], "atol": atol})
@@ -568,7 +648,7 @@ def sec_other2q(ctx, rng, case):
             clean = bool(rng.integers(2))
             ops = P.flat_ops(cirq_google.two_qubit_matrix_to_sycamore_operations(q0, q1, u, atol=atol, clean_operations=clean))
             v, d, n = P.post_sycamore([q0, q1], u, ops, "two_qubit_matrix_to_sycamore_operations", P.recon_tol(atol))
-            _emit(ctx, v, atol=atol, clean_operations=clean, **wit)
+            _emit(ctx, v, _kak=(u, atol), atol=atol, clean_operations=clean, **wit)
             _note_recon(ctx, d, atol)
             ctx.distinct(("syc", _fp(u), atol, clean), nontrivial=_nontrivial(u))
             ctx.sample({"routine": "sycamore", "label": info["label"], "syc_count": n})
